@@ -82,7 +82,10 @@ func (as *AccountSummary) WithdrawableUnlockedBalance(unlockedBalance, bankBalan
 	// calculate withdrawable balance, which is the minimum between the available balance, and
 	// what has been unlocked so far. Also, it cannot be greater than the bank balance.
 	// Available reports the deposited amount - spent amount - lost amount - withdrawn amount.
-	return sdkmath.MinInt(sdkmath.MinInt(as.Available(), unlockedBalance), bankBalance)
+	// The unlocked total never shrinks, so what already left the subaccount is taken off it;
+	// otherwise repeated withdrawals between two unlock times release still locked tokens.
+	unlockedLeft := sdkmath.MaxInt(unlockedBalance.Sub(as.WithdrawnAmount), sdkmath.ZeroInt())
+	return sdkmath.MinInt(sdkmath.MinInt(as.Available(), unlockedLeft), bankBalance)
 }
 
 // WithdrawableBalance returns total (unlocked and locked) withdrawable balance of a subaccount
